@@ -94,7 +94,8 @@ def feed (s : St) (line : String) : St :=
   | ["dm", "reset"] => { s with dm := {} }
   | ["dm", "cfg", f, g] => { s with dmFile := f == "1", dmStr := g == "1" }
   | ["dm", "sim", hasDump, app, prDump, tok] =>
-    let sim : Option Bool × List Char := (if hasDump == "1" then some (app == "1") else none, tok.toList)
+    let sim : Option (Option Bool) × List Char :=
+      (if hasDump == "1" then some (if app == "-" then none else some (app == "1")) else none, tok.toList)
     { s with dm := dumpStep s.dmFile s.dmStr (prDump == "1") s.dm sim }
   | ["sk", "reset"] => { s with so := {}, skAcc := [] }
   | "sk" :: "cfg" :: h :: ws => { s with skHoisted := h == "1", skFileSw := parseMap ws, skAcc := [] }
